@@ -95,6 +95,7 @@ fn mk(cfg: &RunCfg) -> Box<dyn Oracle> {
 fn conf(g: &mut Gen) {
     super::byz::install(g);
     g.cfg.weights.hostile += 4;
+    g.oversize_data = true;
 }
 
 pub fn spec() -> CheckSpec {
@@ -106,12 +107,13 @@ pub fn spec() -> CheckSpec {
     CheckSpec {
         id: "C06",
         level: "exploration",
-        rule: "running worlds (so every group state occurs: idle, pending commit, pending proposals, inactive, mid-race) into which hostile events are injected: in-transit damage of valid wrappers (content byte, kind, timestamps far in the future / past, 0 or 2 h tags, short / non-hex h, truncation, other group's h tag), inner-layer garbage correctly NIP-44-wrapped under the real exporter secret by a member (random bytes, bit-flipped / truncated / extended real MLS messages), unauthorised commits and proposals built with openmls, forged rumors, re-wrapped ciphertexts, hostile and malformed welcomes; catch_unwind around every call (a panic is a violation), and whenever processing reports failure (Err, Unprocessable, PreviouslyFailed, IgnoredProposal, welcome Err) the restricted fingerprint of every group (epoch, authenticator, members, group data, record, pending proposals/commit, messages) equals its value before the call; non-trivial = a hostile event got past the outer layer; distinct = delivery signature",
+        rule: "running worlds (so every group state occurs: idle, pending commit, pending proposals, inactive, mid-race) into which hostile events are injected: in-transit damage of valid wrappers (content byte, kind, timestamps far in the future / past, 0 or 2 h tags, short / non-hex h, truncation, other group's h tag), inner-layer garbage correctly NIP-44-wrapped under the real exporter secret by a member (random bytes, bit-flipped / truncated / extended real MLS messages), unauthorised commits and proposals built with openmls, forged rumors, re-wrapped ciphertexts, hostile and malformed welcomes; catch_unwind around every call (a panic is a violation), and whenever processing reports failure (Err, Unprocessable, PreviouslyFailed, IgnoredProposal, welcome Err) the restricted fingerprint of every group (epoch, authenticator, members, group data, record, pending proposals/commit, messages) equals its value before the call; non-trivial = a hostile event got past the outer layer; distinct = delivery signature; variant binding-strings: every exported function of mdk-uniffi called with values the session produced, damaged variants (character-boundary truncation, multi-byte insertion, JSON leaves replaced by other types, keys removed, values of another kind) and hostile strings: no call panics; process_message / process_welcome answered InvalidInput leave every table of the database unchanged, answered another error leave everything the bindings expose unchanged",
         variants: vec![
             Variant { name: "mem", profile: Profile { backend: BackendMix::Memory, ..base.clone() }, runs_quick: 400, runs_thorough: 20000, oracle: mk, guarded: false, configure_gen: Some(conf), post: None, custom: None },
             Variant { name: "mixed", profile: Profile { backend: BackendMix::Mixed, allow_restart: true, ..base.clone() }, runs_quick: 120, runs_thorough: 6000, oracle: mk, guarded: false, configure_gen: Some(conf), post: None, custom: None },
+            Variant { name: "binding-strings", profile: Profile { backend: BackendMix::Sqlite, steps_lo: 30, steps_hi: 70, ..base.clone() }, runs_quick: 200, runs_thorough: 20000, oracle: super::c10::mk_nop, guarded: false, configure_gen: None, post: None, custom: Some(super::bind::run) },
         ],
-        assumptions: vec!["string arguments supplied by the local application through the bindings (malformed hex ids, hand-built JSON) are input fuzzing, not a network fault, and are not simulated (DESIGN.md §9)", "failure records in processed_messages / processed_welcomes may appear"],
+        assumptions: vec!["binding layer: three mdk-uniffi instances on unencrypted SQLite files play a session through the exported functions only; the callback interface and the keyring constructor are not exercised", "failure records in processed_messages / processed_welcomes may appear"],
         real: super::REAL.to_vec(),
         stubs: super::STUBS.to_vec(),
     }
